@@ -211,6 +211,7 @@ func call(name string, args ...ast.Expr) *ast.CallExpr {
 func (r *rw) pos(n ast.Node) string { return r.p.Fset.Position(n.Pos()).String() }
 
 func (r *rw) file(f *ast.File) {
+	r.quietFirstUse(f)
 	r.node(f)
 	if r.yields {
 		for _, d := range f.Decls {
@@ -226,6 +227,45 @@ func (r *rw) file(f *ast.File) {
 			fd.Body.List = append([]ast.Stmt{y}, fd.Body.List...)
 			r.stats["Yield"]++
 			r.changed = true
+		}
+	}
+}
+
+// quietFirstUse: lindb's metric vectors (internal/linmetric) are process-wide; WithTagValues creates the
+// entry of a tag value the first time it is asked for it in a process (exclusive lock, registry locks, atomics)
+// and only looks it up later. The creation path is made invisible to the scheduler (no yields, no choices), so
+// a run makes the same choices whether it is the first of its process to touch a constant tag value or not.
+func (r *rw) quietFirstUse(f *ast.File) {
+	if !strings.HasSuffix(r.p.PkgPath, "/internal/linmetric") {
+		return
+	}
+	for _, d := range f.Decls {
+		fd, ok := d.(*ast.FuncDecl)
+		if !ok || fd.Body == nil || fd.Name.Name != "WithTagValues" {
+			continue
+		}
+		for i, st := range fd.Body.List {
+			es, ok := st.(*ast.ExprStmt)
+			if !ok {
+				continue
+			}
+			ce, ok := es.X.(*ast.CallExpr)
+			if !ok || len(ce.Args) != 0 {
+				continue
+			}
+			se, ok := ce.Fun.(*ast.SelectorExpr)
+			if !ok || se.Sel.Name != "Lock" {
+				continue
+			}
+			begin := &ast.ExprStmt{X: call("QuietBegin")}
+			end := &ast.DeferStmt{Call: call("QuietEnd")}
+			list := append([]ast.Stmt{}, fd.Body.List[:i]...)
+			list = append(list, begin, end)
+			list = append(list, fd.Body.List[i:]...)
+			fd.Body.List = list
+			r.stats["QuietFirstUse"]++
+			r.changed = true
+			break
 		}
 	}
 }
